@@ -175,6 +175,7 @@ struct KeyvalModel { std::string name; std::map<std::string, std::string> args; 
 struct OptModel {
   std::map<std::string, std::string> map;     // as documented: whitespace-free name -> value
   bool cyclic = false, cComment = false, dupKeys = false, undefRef = false;
+  bool dollarShape = false;    // a literal '$' stands directly in front of a reference whose expansion starts with '(': substitution itself forms a new reference
 };
 struct ParamModel { std::vector<std::string> names; std::vector<double> values; std::vector<std::string> cdesc; int prec = 6; };
 struct IntervalModel { double lo = 0, hi = 0; bool il = true, ih = true; bool padded = false; int prec = 6; };
@@ -491,6 +492,14 @@ public:
         if (!refsTxt.empty()) { long where = r.below(3); v = where == 0 ? refsTxt : (where == 1 ? word(r, "pq", 1, 2) + refsTxt : refsTxt + "." + word(r, "st", 1, 2)); if (refsTxt.find("nosuch") != std::string::npos) m.undefRef = true; }
       }
       entries.push_back(std::make_pair(keys[i], v));
+      if (refs && !cyclic && !undef && i >= 2 && r.chance(0.12)) {
+        // x = [text]$$(p)[text] with p = (b): replacing $(p) by "(b)" spells the new reference $(b) together with the literal '$'
+        size_t j = static_cast<size_t>(r.range(1, static_cast<long>(i) - 1)), k = static_cast<size_t>(r.below(static_cast<long>(j)));
+        entries[j].second = "(" + keys[k] + ")";
+        std::string pre = r.chance(0.5) ? word(r, "pq", 1, 2) : "", post = r.chance(0.5) ? "." + word(r, "st", 1, 2) : "";
+        entries[i].second = pre + "$$(" + keys[j] + ")" + post;
+        m.dollarShape = true;
+      }
     }
     if (dup && n >= 2) { entries.push_back(std::make_pair(keys[0], optValue(r))); m.dupKeys = true; }
     // file order is independent of the dependency order
